@@ -27,6 +27,7 @@ P['C16'] = dict(
         dict(name='single_cp_B', tu=_utf8, entry='h_single_cp', engine='B', defs_quick={'VK_N': 4}, defs_thorough={'VK_N': 6}, reach=['accept-4-byte', 'accept-3-byte', 'accept-2-byte', 'reject-4-byte']),
         dict(name='len65536_B', tu=_utf8, entry='h_len_boundary', engine='B', defs={'VK_N': 2, 'VK_LEN': 65536}, reach=['reject'], max_insns=30_000_000, native=True),
         dict(name='len65535_B', tu=_utf8, entry='h_len_boundary', engine='B', defs={'VK_N': 2, 'VK_LEN': 65535}, reach=['accept'], max_insns=60_000_000),
+        dict(name='len_shared_B', tu=_utf8, entry='h_len_shared', engine='B', defs={'VK_N': 2}, reach=['accept', 'reject'], max_insns=60_000_000, samples=8),
         dict(name='utf8_A', tu=_utf8, entry='h_utf8', engine='A', twin='utf8_B', defs_quick={'VK_N': 2}, defs_thorough={'VK_N': 3}, unwind=6, timeout=1500),
         dict(name='topic_name_A', tu=_utf8, entry='h_topic_name', engine='A', twin='topic_name_B', defs_quick={'VK_N': 2}, defs_thorough={'VK_N': 3}, unwind=6, timeout=1500, tiers=['thorough']),
         dict(name='topic_filter_A', tu=_utf8, entry='h_topic_filter', engine='A', twin='topic_filter_B', defs_quick={'VK_N': 2}, defs_thorough={'VK_N': 3}, unwind=6, timeout=1500),
